@@ -588,7 +588,7 @@ class PoolSpec:
             res = evaluate(prop, plan, obs, k, kind, info)
             res.update({
                 "digest": k.digest(), "signature": k.signature(), "steps": k.step, "switches": k.switches,
-                "preemptions": k.preemptions, "sync_events": k.sync_events, "max_live": k.max_live,
+                "preemptions": k.preemptions, "sync_events": k.sync_events, "max_live": k.max_live, "abstract_states": sorted(k.abstract_states),
                 "probes": {**k.probes, **compute_probes(k, obs, plan)}, "faults": k.faults,
                 "strategy": strategy.name,
                 "nontrivial": k.max_live >= 2 and k.preemptions >= 1,
